@@ -101,6 +101,13 @@ type allowKey struct {
 	msg     string
 }
 
+// c04Follow: a native grant that the next one or two steps spend through its grantee contract.
+type c04Follow struct {
+	g    common.Address
+	mi   int
+	left int
+}
+
 type allowVal struct {
 	unlimited bool
 	limit     sdkmath.Int
@@ -213,12 +220,17 @@ func c04Sequence(r *report.R, id string) {
 		return bz
 	}
 	steps := 10 + rng.Intn(r.Pick(14, 30))
+	var follow *c04Follow
 	for s := 0; s < steps; s++ {
 		r.Eval(1)
 		if rng.Intn(5) == 0 {
 			e.nextBlock()
 		}
-		switch k := rng.Intn(14); {
+		k := rng.Intn(14)
+		if follow != nil {
+			k = 4 // the grant just given natively is used at once, through the contract that holds it
+		}
+		switch {
 		case k >= 12: // S grants natively (x/authz MsgGrant) a stake authorization with a narrow validator list
 			g := grantees[rng.Intn(len(grantees))]
 			mi := rng.Intn(4)
@@ -262,6 +274,9 @@ func c04Sequence(r *report.R, id string) {
 				ref[allowKey{g, mt}] = nv
 				r.Nontriv(fmt.Sprintf("manage|native-grant|deny=%v|limited=%v", deny, lim != nil))
 				r.Count("native_grants_with_validator_list", 1)
+				if g != n1 && rng.Intn(4) > 0 {
+					follow = &c04Follow{g: g, mi: mi, left: 1 + rng.Intn(2)}
+				}
 			}
 			if !observe("manage:native-grant") {
 				return
@@ -340,8 +355,19 @@ func c04Sequence(r *report.R, id string) {
 				name         string
 			}
 			rt := []route{{c1, c1, "S→C1→P"}, {n1, n2, "S→N1→N2→P"}}[rng.Intn(2)]
+			fol := follow
+			if fol != nil {
+				if fol.g == c1 {
+					rt = route{c1, c1, "S→C1→P"}
+				} else {
+					rt = route{n1, n2, "S→N1→N2→P"}
+				}
+				if fol.left--; fol.left <= 0 {
+					follow = nil
+				}
+			}
 			signer := S
-			if rng.Intn(6) == 0 {
+			if fol == nil && rng.Intn(6) == 0 {
 				signer = X // someone else drives the contract that holds S's grant
 			}
 			named := S.Eth
@@ -360,6 +386,9 @@ func c04Sequence(r *report.R, id string) {
 				named, namedCls = S.Eth, "granter-not-signer"
 			}
 			mi := rng.Intn(4)
+			if fol != nil {
+				named, namedCls, mi = S.Eth, "signer", fol.mi
+			}
 			mt := msgTypes[mi]
 			key := allowKey{rt.caller, mt}
 			cur, has := ref[key]
